@@ -375,7 +375,7 @@ theorem itRemove_split (cfg : Cfg) (A B : List RObj) (o : RObj) (nh : Int) (nx k
   unfold removeGuard at hgd
   simp only [hgd, Bool.false_eq_true, ↓reduceIte]
   simp only [htn, hDH, setObj_mid A B o nh nx _ r' hnd, hi1, insertRange_mid]
-  simp only [EL.setIt, List.map_cons, List.map_nil, beq_self_eq_true, ↓reduceIte]
+  simp only [delIts, EL.setIt, List.map_cons, List.map_nil, beq_self_eq_true, ↓reduceIte]
   have hh : EL.hrAt ⟨A ++ { o with r := r' } :: (⟨nx, up⟩ : RObj) :: B, nh, nx + 1,
       [(0, ⟨(A.length : Int), (k : Int) - 1, some o.id⟩)]⟩ ((A.length : Int) + 1) = some nx := by
     have : ((A.length : Int) + 1) = ((A ++ [({ o with r := r' } : RObj)]).length : Int) := by simp
@@ -398,7 +398,7 @@ theorem itRemove_shrink (cfg : Cfg) (A B : List RObj) (o : RObj) (nh : Int) (nx 
   unfold removeGuard at hgd
   simp only [hgd, Bool.false_eq_true, ↓reduceIte]
   simp only [htn, hDH, setObj_mid A B o nh nx _ r' hnd, hne, Bool.false_eq_true, ↓reduceIte]
-  simp only [EL.setIt, List.map_cons, List.map_nil, beq_self_eq_true, ↓reduceIte]
+  simp only [delIts, EL.setIt, List.map_cons, List.map_nil, beq_self_eq_true, ↓reduceIte]
 
 theorem itRemove_empty_first (cfg : Cfg) (hfix : cfg.fixRemoveDepth = true) (B : List RObj) (o : RObj) (nh : Int)
     (nx k : Nat) (r' : HRange) (hnd : ((o :: B).map (·.id)).Nodup) (hgd : removeGuard o k = false)
